@@ -413,7 +413,10 @@ def _tril(case, ctx, g):
         mu, L = _TrilNaturalToMuVarSqrt.apply(t1, T)
         Lref = torch.linalg.inv(T.detach())
         Sref = Lref @ Lref.transpose(-1, -2)
-        ctx.close("tril_natural_forward", L, Lref, (1e-9, 1e-9))
+        # (any lower-triangular factor of S = (T^T T)^-1 is a correct forward value; the gradients below are those of the factor returned)
+        ctx.close("tril_natural_forward", L @ L.transpose(-1, -2), Sref, (1e-9, 1e-9))
+        ctx.expect("tril_natural_forward", bool((L.detach().triu(1) == 0).all()), "returned factor is not lower triangular")
+        sg = torch.sign(torch.diagonal(L.detach(), dim1=-2, dim2=-1))
         ctx.close("tril_natural_forward", mu, (Sref @ t1.detach().unsqueeze(-1)).squeeze(-1), (1e-9, 1e-9))
         g_mu, g_L = util.randn(g, *b, M), torch.tril(util.randn(g, *b, M, M))
         d1, dT = torch.autograd.grad([mu, L], [t1, T], [g_mu, g_L], retain_graph=True)
